@@ -10,7 +10,7 @@ from spec import c17_trace as CT
 SCALE = 2
 
 
-def run_manager(eng, K, T_max=None, D_max=0, lat_max=2, life_max=2, max_loss=None, configure=None, horizon_extra=400, fixed=None, S_max=None):
+def run_manager(eng, K, T_max=None, D_max=0, lat_max=2, life_max=2, max_loss=None, configure=None, horizon_extra=400, fixed=None, S_max=None, second=None):
     """returns dict(trace, transports, quiescent, cut, names, loop, T, D)"""
     import han.meter_connection as MC
     warnings.simplefilter("ignore")
@@ -66,6 +66,7 @@ def run_manager(eng, K, T_max=None, D_max=0, lat_max=2, life_max=2, max_loss=Non
 
     cut = False
     res = None
+    CT.drive.alive.clear()
     asyncio.events._set_running_loop(None)
     try:
         old = None
@@ -76,6 +77,12 @@ def run_manager(eng, K, T_max=None, D_max=0, lat_max=2, life_max=2, max_loss=Non
         asyncio.get_event_loop_policy()._local._loop = loop        # Future() / Queue() created by the code under test bind to this loop
         try:
             trace, transports, task, mgr = CT.drive(MC, loop, P, K, CutPath, sched, now_units, configure)
+            close_first = CT.drive.last_close
+            if second is not None:
+                # a second, independent manager on the same loop (its own factory, transports and trace)
+                P2 = lambda name, i: second(name, i, param)
+                CT.drive(MC, loop, P2, 50, CutPath, lambda fn: None, now_units, None)
+                CT.drive.last_close = close_first
             try:
                 if S == 0:
                     CT.drive.last_close()          # close() right after create_task(connect_loop()), before its first step
